@@ -119,40 +119,18 @@ def eval_path(path, func):
     return out, conds, env
 
 
-def run(rep):
-    repo = rep.repo
-    mod = repo.module('interface.py')
-    rep.rule('R18.1', 'fromFunction: along every path, positional = '
-             'co_varnames[M:A], required = [M:A-D] (clamped to empty when '
-             'D > A-M), optional names = the last min(D, A-M) positionals '
-             'zipped with the last defaults, *name at index A+K, **name at '
-             'A+K+[has *name]; all derived from the function\'s own code '
-             'object on every path', floor=8)
-    rep.rule('R18.2', 'whoever rewrites one signature field of a Method '
-             'rewrites the dependent ones consistently (positional and its '
-             'prefix required)', floor=1)
-    rep.rule('R18.3', 'rendering: positionals in order each followed by '
-             '=repr(default) iff optional, then *varargs iff set, then '
-             '**kwargs iff set; getSignatureInfo returns the five fields '
-             'under their names', floor=2)
-    rep.rule('R18.4', 'every function attribute becomes a tagged value; '
-             'fromMethod unwraps __func__ and strips self (imlevel=1)', floor=3)
-    rep.decline('none (keyword-only/positional-only parameters are not part '
-                'of the five reported fields; the rule checks they do not '
-                'shift the reported ones)')
-    rep.assume('CPython code-object layout: co_varnames = positional '
-               '(co_argcount, incl. positional-only), keyword-only, *name, '
-               '**name, locals')
-
+def from_function_layout(rep, mod, rule):
+    """fromFunction's five fields against the co_varnames layout, all paths
+    (shared: C18 R18.1, C17 R17.5)"""
     f = find_def(mod, 'fromFunction')
     uses_inspect = bool(find_all(f, 'inspect.signature($$a)')) or \
         bool(find_all(f, 'inspect.getfullargspec($$a)'))
     if uses_inspect:
-        rep.check('R18.1', 'interface.fromFunction', True,
+        rep.check(rule, 'interface.fromFunction', True,
                   'delegates to the inspect module (no index obligations)',
                   construct='inspect', node=f)
         for i in range(7):
-            rep.check('R18.1', 'interface.fromFunction', True, 'n/a',
+            rep.check(rule, 'interface.fromFunction', True, 'n/a',
                       construct='inspect-%d' % i, node=f, nontrivial=False)
     else:
         cfg = cfg_of(f)
@@ -222,9 +200,9 @@ def run(rep):
                 detail = {'field': k, 'paths_violating': len(bad),
                           'first': bad[0][0],
                           'path': path_text(bad[0][1])[:40]}
-            rep.check('R18.1', 'interface.fromFunction', not bad, detail,
+            rep.check(rule, 'interface.fromFunction', not bad, detail,
                       construct=k, node=f)
-        rep.check('R18.1', 'interface.fromFunction', not negidx,
+        rep.check(rule, 'interface.fromFunction', not negidx,
                   'every index and slice bound into co_varnames is non-negative for '
                   'all code objects and levels' if not negidx else
                   {'paths_violating': len(negidx), 'first': negidx[0][0],
@@ -232,7 +210,7 @@ def run(rep):
                   construct='non-negative-index', node=f)
         # names derived from the described function itself
         nm = resolve_local(f, ast.Name(id='code', ctx=ast.Load()))
-        rep.check('R18.1', 'interface.fromFunction',
+        rep.check(rule, 'interface.fromFunction',
                   match('func.__code__', nm) is not None,
                   'the code object is func.__code__: %s' % norm_src(nm),
                   construct='code', node=f)
@@ -240,15 +218,45 @@ def run(rep):
               and isinstance(n.targets[0], ast.Name) and n.targets[0].id == 'defaults']
         ok = bool(df) and (match("getattr(func, '__defaults__', None) or ()", df[0])
                            is not None or match('func.__defaults__ or ()', df[0]) is not None)
-        rep.check('R18.1', 'interface.fromFunction', ok,
+        rep.check(rule, 'interface.fromFunction', ok,
                   'defaults come from func.__defaults__', construct='defaults',
                   node=f)
         rets = [n for n in walk_local(f) if isinstance(n, ast.Return)]
-        rep.check('R18.1', 'interface.fromFunction',
+        rep.check(rule, 'interface.fromFunction',
                   len(rets) == 1 and match('method', rets[0].value) is not None
                   and rets[0] is f.body[-1],
                   'a single return of the freshly built Method at the end (no '
                   'memoized/early result)', construct='single-return', node=f)
+
+
+
+def run(rep):
+    repo = rep.repo
+    mod = repo.module('interface.py')
+    rep.rule('R18.1', 'fromFunction: along every path, positional = '
+             'co_varnames[M:A], required = [M:A-D] (clamped to empty when '
+             'D > A-M), optional names = the last min(D, A-M) positionals '
+             'zipped with the last defaults, *name at index A+K, **name at '
+             'A+K+[has *name]; all derived from the function\'s own code '
+             'object on every path', floor=8)
+    rep.rule('R18.2', 'whoever rewrites one signature field of a Method '
+             'rewrites the dependent ones consistently (positional and its '
+             'prefix required)', floor=1)
+    rep.rule('R18.3', 'rendering: positionals in order each followed by '
+             '=repr(default) iff optional, then *varargs iff set, then '
+             '**kwargs iff set; getSignatureInfo returns the five fields '
+             'under their names', floor=2)
+    rep.rule('R18.4', 'every function attribute becomes a tagged value; '
+             'fromMethod unwraps __func__ and strips self (imlevel=1)', floor=3)
+    rep.decline('none (keyword-only/positional-only parameters are not part '
+                'of the five reported fields; the rule checks they do not '
+                'shift the reported ones)')
+    rep.assume('CPython code-object layout: co_varnames = positional '
+               '(co_argcount, incl. positional-only), keyword-only, *name, '
+               '**name, locals')
+
+    from_function_layout(rep, mod, 'R18.1')
+    f = find_def(mod, 'fromFunction')
 
     # ---- R18.2 field consistency ------------------------------------------------
     from . import methodsem
